@@ -221,3 +221,19 @@ Definition run_frag (s : sexp) : sexp :=
       end
   | _ => bad_input
   end.
+
+(* c01.denote: (ex, event) -> the reference value of the query on the event *)
+Definition run_denote (s : sexp) : sexp :=
+  match s with
+  | SList [e; evs] =>
+      match d_ex e, d_event evs with
+      | Some e', Some ev =>
+          match de ev e' with
+          | ROk v => s_tag "ok" [s_value v]
+          | RFault f => s_tag "fault" [s_fault f]
+          | RStuck k => s_tag "stuck" [s_stuck k]
+          end
+      | _, _ => bad_input
+      end
+  | _ => bad_input
+  end.
